@@ -231,3 +231,6 @@ package num
 //@ lemma c17_odd_rescale(a Amount, e uint32): rescaleDom(a, e) && a.value != 0 - 9223372036854775808 && fits64(0 - a.value * pow10(ite(e > a.exp, e - a.exp, 0))) ==> Amount.Rescale(Amount.Negate(a), e) == Amount.Negate(Amount.Rescale(a, e))
 //@ lemma c17_odd_multiply(a Amount, b Amount): b.exp <= 18 && inDom(a.value) && inDom(b.value) && inDom(a.value * b.value) ==> Amount.Multiply(Amount.Negate(a), b) == Amount.Negate(Amount.Multiply(a, b))
 //@ lemma c05_near_unique(n int, b int, t int, u int): b != 0 && near(n, b, t) && near(n, b, u) ==> t == u
+//
+//@ func (a Amount) String() (r)
+//@   trusted text form (C06); heap-pure
